@@ -133,6 +133,11 @@ def transcript_text(scn_obj):
         for key, rows in c.I.items():
             for r in rows:
                 lines.append("I %s %s" % (key, " ".join(r)))
+        # outputs of the implementation on which the model driver evaluates a certificate checker
+        # that has a Lean soundness theorem (C15: minimum spanning forest)
+        if c.toks and c.toks[0] == "bgraph" and "bg_edges" in c.O and "bg_tree" in c.O:
+            lines.append("I impl_bg_edges " + " ".join(c.O["bg_edges"]))
+            lines.append("I impl_bg_tree " + " ".join(c.O["bg_tree"]))
     lines.append("E " + scn_obj.id)
     return "\n".join(lines) + "\n"
 
